@@ -328,13 +328,14 @@ def extra(root, out_dir, tier, seed, findings, cov):
 
 CFG = {
     "level": "proof",
-    "level_text": "Lean theorems about the lexical layer of every writer, each against a reader written independently from the target format's grammar: toml_basic_roundtrip / toml_key_roundtrip / bareAllowed_sound (every TOML string and key is a well-formed basic string or a non-empty [A-Za-z0-9_-]+ bare key and decodes to the source string), py_literal_roundtrip (Python literal), yaml_dq_roundtrip (YAML double-quoted scalar: only printable characters literally, no YAML 1.1 line break, decodes to the source), xml_text_roundtrip / xml_attr_roundtrip / xml_escape_no_markup (character data and attribute values survive entity decoding, end-of-line handling and attribute-value normalisation; no markup characters are left), yaml_stream_framing_partial (+ counterexample for the empty stream with c_document_end, a listed finding), bareSafe_sound_basic (what bare_safe leaves unquoted is non-empty, made of letters/digits/-_./ only, not a YAML 1.1 bool/null/inf/nan word in any casing and not a run of digits), domain_rejected / domain_rejected_named (a writer fails exactly on values outside the format's domain: null/function in TOML, function anywhere, non-JsonML shapes), escape_table_high_half_zero (the byte-level escaper acts character by character). All hold for every string / value, no size bound. The model is tied to the code by re-extracting the 256-entry escape table, the TOML bare-key class and guard, the YAML reserved words, the six bare_safe character classes, the YAML/TOML re-escape classes and the XML escape arms on every run, and by a token-level differential run of the real writers (every lexical position of every format, ~500 hostile strings) against both the model and the Lean readers. Layout is not proved: whole documents emitted by the real writers under every option combination are read back by PyYAML (pure Python and libyaml), tomllib, ast, xml.etree and configparser and compared strictly with the source value.",
-    "level_note": "Partial: indentation / section / array-of-table / block-scalar layout is observed through external parsers, not proved (no verified YAML or TOML parser). bare_safe (YAML plain keys and CLI plain values) is modelled and tied token by token; its theorem covers the character class, the reserved words and digit runs, while the exclusion of the remaining YAML 1.1 int/float/timestamp patterns (signs, underscores, 0x/0b, exponents, dates) is exercised on look-alikes through PyYAML, not proved. Trusted: Lean kernel; the Lean readers as renderings of the TOML 1.0 / Python / YAML 1.2(+1.1 strictness) / XML 1.0 grammars (the Python reader under-approximates: no octal, no \\N{}); the character-level reading of the byte loop (backed by escape_table_high_half_zero and UTF-8's ASCII transparency); number rendering ({n} Display) belongs to C05.",
-    "technique": "Lean 4 proof of the lexical layer (escapers, key predicates, framing, domains) against independently written readers + table/class extraction + token-level correspondence + read-back of whole documents by external parsers",
+    "level_text": "Lean theorems about the lexical layer of every writer, each against a reader written independently from the target format's grammar: toml_basic_roundtrip / toml_key_roundtrip / bareAllowed_sound (every TOML string and key is a well-formed basic string or a non-empty [A-Za-z0-9_-]+ bare key and decodes to the source string), py_literal_roundtrip (Python literal), yaml_dq_roundtrip (YAML double-quoted scalar: only printable characters literally, no YAML 1.1 line break, decodes to the source), xml_text_roundtrip / xml_attr_roundtrip / xml_escape_no_markup (character data and attribute values survive entity decoding, end-of-line handling and attribute-value normalisation; no markup characters are left), yaml_stream_framing_partial (+ counterexample for the empty stream with c_document_end, a listed finding), bareSafe_sound (what bare_safe leaves unquoted is resolved to a string by the complete YAML 1.1 implicit-type resolver as PyYAML has it - bool, int with sign/underscores/0b/0x/leading-zero octal/sexagesimal, float with exponent/.inf/.nan/sexagesimal, timestamp, merge <<, value =, null ~ - and is syntactically a plain scalar; bareSafe_repo_counterexample / bareSafe_repo_partial record that the letter of yaml.org/type/float.html, which allows several dots, would also take 1.2.3, which no parser does), toml_sections_rebuild (for both settings of skip_empty_sections and every object with distinct keys per table: the key/value lines and [table] / [[array of tables]] headers the table writers start, given TOML's meaning of headers, rebuild exactly the source value, so every table including an empty one must be announced by a line) with toml_layout_same_members, domain_rejected / domain_rejected_named (a writer fails exactly on values outside the format's domain: null/function in TOML, function anywhere, non-JsonML shapes), escape_table_high_half_zero (the byte-level escaper acts character by character). All hold for every string / value, no size bound. The model is tied to the code by re-extracting the 256-entry escape table, the TOML bare-key class and guard, the YAML reserved words, the six bare_safe character classes, the YAML/TOML re-escape classes and the XML escape arms on every run, and by a token-level differential run of the real writers (every lexical position of every format, ~500 hostile strings) against both the model and the Lean readers. Whole-writer models (ManifDoc: TOML items + render, Python, PythonVars, INI with ToString values) are compared byte for byte with the real writers under every option combination (4 indents x std, 3 paddings x CLI, both INI newline settings), and an independently written TOML reader (ManifTomlR: statements, dotted headers, inline arrays/tables, basic strings; then the table semantics proved above) reads every emitted TOML document back and must return the source value. The remaining layout is not proved: whole documents emitted by the real writers under every option combination are read back by PyYAML (pure Python and libyaml), tomllib, ast, xml.etree and configparser and compared strictly with the source value.",
+    "level_note": "Partial: for TOML the section structure is proved on the statement level (toml_sections_rebuild); that the characters written parse into those statements (parseDoc (render items) = statements) is not a theorem - it is checked on every generated document by running the Lean reader on the real output, and by tomllib. YAML indentation / block-scalar layout, Python and INI layout are observed through external parsers, not proved. bare_safe is proved against the PyYAML (YAML 1.1) resolver; a YAML 1.2 core-schema reader would resolve the bare 0o17 to an integer (outside the 1.1 reference). Trusted: Lean kernel; the Lean readers as renderings of the TOML 1.0 / Python / YAML 1.2(+1.1 strictness) / XML 1.0 grammars (the Python reader under-approximates: no octal, no \\N{}); the character-level reading of the byte loop (backed by escape_table_high_half_zero and UTF-8's ASCII transparency); number rendering ({n} Display) belongs to C05.",
+    "technique": "Lean 4 proof of the lexical layer (escapers, key predicates incl. the full YAML 1.1 resolver, framing, domains) and of the TOML section structure against independently written readers + table/class extraction + token-level and whole-document byte-for-byte correspondence + read-back of whole documents by a Lean TOML reader and by external parsers",
     "engines": ["c14"],
     "assumptions": [
         "domains: PythonVars field names are Python identifiers, XML tag/attribute names are XML Names, strings given to the XML writer consist of XML 1.0 Chars, INI keys/values/section names contain no line breaks, no leading/trailing blanks and keys no '=' — the writers do not escape or validate these (no escaping exists in those positions) and the property text does not list them among the rejections",
         "block-scalar-safe class used by the generator: 2..4 non-empty lines of printable characters that neither start nor end with white space, at most one trailing line feed; other multi-line strings are only compared token-by-token with the model",
+        "toml_sections_rebuild assumes distinct keys in every object (true of every jsonnet object); object members reach the model in the order obj.iter() yields them (taken from the real value by the harness)",
         "numbers: integers up to 2^53 and a few fractions; their rendering is not part of this model",
         "YAML is read back with YAML 1.1 parsers (PyYAML / libyaml); a YAML 1.2 core-schema parser would read the bare key 0o17 as an integer (not checked)",
         "the CLI formats are exercised through the constructors the CLI calls (YamlFormat::cli, TomlFormat::cli, XmlJsonmlFormat::cli, IniFormat::cli, YamlStreamFormat::cli) plus the line feed the binary appends; --line-padding 0 for YAML is excluded (no indentation at all)",
